@@ -740,6 +740,10 @@ func (x *Exec) evalClauseConcrete(t *harnessTarget, clause *SExpr, in map[string
 	case "false":
 		return "false"
 	}
+	x.concreteSolverCalls++
+	if x.concreteSolverCalls > 60 {
+		return "unknown"
+	}
 	q := &Query{Assume: st.pc, Goal: term}
 	x.instantiateSpecs(q, 3)
 	r := solveQuery(q, 5*time.Second, false)
@@ -990,7 +994,11 @@ func (x *Exec) buildReplay(repo, vdir, dir, prop string, ob *Obligation, r Solve
 			}
 		}
 	}
-	// 2. bounded search for a failing input (search only, never proof)
+	// 2. a registered scenario (multi-step or header-form histories)
+	if x.runScenario(repo, vdir, ob, doc) {
+		return finish()
+	}
+	// 3. bounded search for a failing input (search only, never proof)
 	seed := int64(0)
 	fmt.Sscanf(os.Getenv("VERIF_SEED"), "%d", &seed)
 	cands := x.candidateInputs(t, 1500, seed)
@@ -1034,7 +1042,6 @@ func (x *Exec) buildReplay(repo, vdir, dir, prop string, ob *Obligation, r Solve
 			}
 		}
 	}
-	x.runScenario(repo, vdir, ob, doc)
 	return finish()
 }
 
